@@ -355,6 +355,14 @@ type Contract struct {
 	File    string
 }
 
+// target is the function name without the scenario suffix (" @name").
+func (c *Contract) target() string {
+	if i := strings.Index(c.Func, " @"); i >= 0 {
+		return c.Func[:i]
+	}
+	return c.Func
+}
+
 func (c *Contract) clauses(kind string) []*Clause {
 	var out []*Clause
 	for _, cl := range c.Clauses {
@@ -387,7 +395,7 @@ type Specs struct {
 
 func (s *Specs) contractFor(pkgPath, fn string) *Contract {
 	for _, c := range s.Contracts {
-		if strings.HasSuffix(pkgPath, c.Pkg) && c.Func == fn {
+		if strings.HasSuffix(pkgPath, c.Pkg) && c.target() == fn {
 			return c
 		}
 	}
